@@ -16,6 +16,11 @@
  *       complemented bytes (a cache keyed by address+length would now be stale), errno is preset to ERANGE, then the
  *       real key is written to the same place and hashed (at odd alignments with the run-time debug level raised
  *       to 5): the value must be the same as everywhere else
+ *   B   the six PUBLIC functions called BY NAME (not through a function pointer) on ONE buffer whose contents are rewritten
+ *       between the calls: a straight-line pair (complemented bytes, then the key) and a 3-round loop (two other contents,
+ *       then the key), same pointer / length / seed every time.  The header is part of the contract: a prototype
+ *       attribute that lets an optimising caller merge or hoist these calls shows here.  The check runs this harness built
+ *       at -O1 and at -O2.
  *   N   (empty key only) the key given as (NULL, 0, seed): the definitions never touch the key when the length is 0,
  *       so NULL is one more legitimate place for the empty key
  * Further step kinds:
@@ -33,7 +38,7 @@
 #include "c18_ref.h"
 
 typedef spif_uint32_t (*hfn_t)(spif_uint8_t *, spif_uint32_t, spif_uint32_t);
-#define H_CALLS_PER_VECTOR 39          /* E:8 E2:7 M:8 P:8x2 */
+#define H_CALLS_PER_VECTOR 44          /* E:8 E2:7 M:8 P:8x2 B:2+3 */
 #define H_EXTRA_CALLS_EMPTY_KEY 2       /* N at run-time debug level 0 and 5 */
 
 static int key_modified = 0;
@@ -111,6 +116,34 @@ static spif_uint32_t eval_at(hfn_t fn, const unsigned char *kb, size_t nbytes, s
     return r;
 }
 
+
+/* ---- calls by name on one rewritten buffer ------------------------------------------------------------------ */
+/* r[0]: straight-line pair, value of the 2nd call; r[1..3]: the loop's three values (only r[3] hashes the key itself;
+ * r[1], r[2] are kept so that the calls cannot be dropped) */
+#define BYNAME_BODY(FN) do { \
+        for (i = 0; i < n; i++) buf[i] = (unsigned char) ~kb[i]; \
+        sink ^= FN((spif_uint8_t *) buf, lenarg, seed); \
+        for (i = 0; i < n; i++) buf[i] = kb[i]; \
+        r[0] = FN((spif_uint8_t *) buf, lenarg, seed); \
+        for (round = 0; round < 3; round++) { \
+            for (i = 0; i < n; i++) buf[i] = (unsigned char) (kb[i] ^ (round == 0 ? 0x55 : (round == 1 ? 0xFF : 0x00))); \
+            r[1 + round] = FN((spif_uint8_t *) buf, lenarg, seed); \
+        } \
+    } while (0)
+static volatile spif_uint32_t sink = 0;
+static int byname(const char *op, unsigned char *buf, const unsigned char *kb, size_t n, spif_uint32_t lenarg, spif_uint32_t seed,
+                  spif_uint32_t r[4])
+{
+    size_t i; int round;
+    if (!strcmp(op, "jenkins")) BYNAME_BODY(spifhash_jenkins);
+    else if (!strcmp(op, "jenkinsLE")) BYNAME_BODY(spifhash_jenkinsLE);
+    else if (!strcmp(op, "jenkins32")) BYNAME_BODY(spifhash_jenkins32);
+    else if (!strcmp(op, "rotating")) BYNAME_BODY(spifhash_rotating);
+    else if (!strcmp(op, "one_at_a_time")) BYNAME_BODY(spifhash_one_at_a_time);
+    else if (!strcmp(op, "fnv")) BYNAME_BODY(spifhash_fnv);
+    else return -1;
+    return 5;
+}
 
 /* ---- extreme lengths ------------------------------------------------------------------------------------ */
 #define HUGE_SPAN ((uint64_t) 1 << 32)
@@ -229,6 +262,16 @@ static const char *vh_step(const vh_step_t *st, vh_sb *ret, vh_sb *state)
         if (a) ONE(a, 0, 0x5A, 0, 0, "E2");
         ONE(8 + a, 5 + a, 0x3C, 1, 0, "M");
         ONE(a, 0, 0xC3, 0, 1, "P");
+    }
+    {
+        spif_uint32_t r[4]; unsigned char *buf = (unsigned char *) malloc(nbytes ? nbytes : 1);
+        int k = byname(st->op, buf, kb, nbytes, lenarg, seed, r);
+        if (k < 0) die_machinery("by-name table");
+        calls += k; a = 0;
+        v = r[0]; NOTE("B-pair");
+        v = r[3]; NOTE("B-loop");
+        sink ^= r[1] ^ r[2];
+        free(buf);
     }
     if (nbytes == 0) {
         a = 0; v = fn((spif_uint8_t *) NULL, lenarg, seed); calls++;
